@@ -1,6 +1,6 @@
-// Package touch is the only harness package compiled WITH race
-// instrumentation: the simulated transport goes through it whenever it reads
-// or writes memory that belongs to the library (the buffers handed to
+// Package touch is compiled WITH race instrumentation (unlike the rest of the
+// simulator): the simulated transport goes through it whenever it reads or
+// writes memory that belongs to the library (the buffers handed to
 // net.Conn.Read/Write), so that ThreadSanitizer attributes those accesses to
 // the calling task exactly like the race annotations in the real syscall
 // layer do.
@@ -10,22 +10,17 @@ package touch
 //
 //go:noinline
 func Write(dst, src []byte) {
-	for i := range src {
-		dst[i] = src[i]
-	}
+	copy(dst, src) // instrumented: one write-range event on dst
 }
 
-var sink byte
+var scratch [65536]byte
 
 // Read reads every byte of p (library memory).
 //
 //go:noinline
 func Read(p []byte) {
-	var x byte
-	for _, b := range p {
-		x ^= b
-	}
-	if x == 0x5a && len(p) == 1<<40 {
-		sink = x
+	for len(p) > 0 {
+		n := copy(scratch[:], p) // instrumented: one read-range event on p
+		p = p[n:]
 	}
 }
